@@ -23,6 +23,14 @@
 (*   the lock is met in a block whose height and whose predecessor's median *)
 (*   time past are both strictly larger.                                    *)
 (*                                                                         *)
+(* Forks: from a history of ForkMain blocks on top of the preamble a side   *)
+(* branch can be grown at the last preamble block (the fork point), with    *)
+(* its own timestamps, until it is one block longer than the main branch:   *)
+(* the node then has to validate the side branch while the main branch is   *)
+(* still its best chain.  The lock of a transaction in a side-branch block   *)
+(* is defined by that block's OWN ancestors (the preamble and the side      *)
+(* branch), never by the blocks the best chain has at the same heights.      *)
+(*                                                                         *)
 (* BIP68 applies to transactions of version >= 2 (as an unsigned number),   *)
 (* never to a coinbase, always for the mempool and in blocks once the CSV   *)
 (* deployment is active (here: from height CsvHeight on).                   *)
@@ -34,8 +42,10 @@ CONSTANTS Tier
 VARIABLES pre,      \* number of evenly spaced blocks mined before the enumerated ones
           chain,
           meds,     \* meds[h + 1] = median time past of the block at height h
+          side,     \* times of the side branch blocks (heights pre + 1, pre + 2, ...), << >> when there is none
+          smeds,    \* medians along the side branch's own chain (preamble, then side), << >> when there is none
           expect
-vars == <<pre, chain, meds, expect>>
+vars == <<pre, chain, meds, side, smeds, expect>>
 
 Thorough == Tier = "thorough"
 
@@ -47,6 +57,12 @@ Depth(p)  == IF Thorough THEN (IF p = 0 THEN 6 ELSE 5) ELSE IF p = 0 THEN 4 ELSE
 \* time past), otherwise a distance from the tip's time
 Steps     == IF Thorough THEN {0, 1, 600, 7000} ELSE {0, 600, 7000}
 CsvHeight(p) == p + 2
+\* forks: the preambles that are forked, the length of the main branch above
+\* the fork point when the side branch appears (the side branch grows one
+\* block longer), and the steps main branches that get forked are made of
+ForkPres     == IF Thorough THEN {5, 12} ELSE {12}
+ForkMain     == 2
+ForkMainSteps == IF Thorough THEN {0, 600, 7000} ELSE {600, 7000}
 Mempool   == -1
 
 Max(S) == CHOOSE x \in S : \A y \in S : y <= x
@@ -173,13 +189,43 @@ Expect(m, t, p) ==
 
 Start(p) == [i \in 1..(p + 1) |-> Base + Spacing * (i - 1)] \o << >>
 
+-----------------------------------------------------------------------------
+(* forks *)
+
+\* the chain a side branch block looks back on
+OwnChain(c, p, sd) == SubSeq(c, 1, p + 1) \o sd
+
+\* the queries of a complete fork: a transaction in the LAST side block (its
+\* parent at height t is the side block before it) spending outputs of its own
+\* chain at heights below, at and above the fork point, on the boundary
+ForkQueries(m, t, p) ==
+    LET hs == {p - 1, p} \cup ((p + 1)..t) IN
+         { Q(2, TRUE, FALSE, <<In(64, LastTimeLock(m, t, ih) + d, ih)>>) : ih \in hs, d \in {0, 1} }
+    \cup { Q(2, TRUE, FALSE, <<In(0, LastHeightLock(t, ih) + d, ih)>>) : ih \in {p, t}, d \in {0, 1} }
+    \cup { Q(1, TRUE, FALSE, <<In(64, LastTimeLock(m, t, t) + 1, t)>>) }
+
+\* one row per fork query: <<version, inputs, allowed, lock seconds, lock height>>
+ForkRow(m, t, p, q) ==
+    LET l == SeqLock(m, t, p, Q(q.version, TRUE, FALSE, q.ins)) IN
+    << q.version, [i \in 1..Len(q.ins) |-> <<q.ins[i].hi, q.ins[i].lo, q.ins[i].h>>] \o << >>,
+       BlockOK(m, t, p, q), l.seconds, l.height >>
+
+\* m = medians of the own chain WITHOUT the last side block (that block holds the transaction)
+ForkExpect(m, p, sd) ==
+    IF Len(sd) <= ForkMain THEN [fork |-> "growing"]
+    ELSE LET t == p + Len(sd) - 1 IN
+         [ fork |-> "complete", forkAt |-> p, parent |-> t, mtp |-> m[t + 1],
+           rows |-> { ForkRow(m, t, p, q) : q \in ForkQueries(m, t, p) } ]
+
 Init == /\ pre \in Preambles
         /\ chain = Start(pre)
         /\ meds = Medians(chain)
+        /\ side = << >> /\ smeds = << >>
         /\ expect = Expect(meds, pre, pre)
 
 \* (the one-element sets only make TLC evaluate the new chain and medians once)
-Mine == /\ Len(chain) < pre + 1 + Depth(pre)
+Mine == /\ side = << >>
+        /\ Len(chain) < pre + 1 + Depth(pre)
         /\ \E s \in Steps :
               LET t == IF s = 0 THEN meds[Len(meds)] + 1 ELSE chain[Len(chain)] + s IN
               /\ t > meds[Len(meds)]
@@ -188,9 +234,30 @@ Mine == /\ Len(chain) < pre + 1 + Depth(pre)
                     /\ chain' = c2
                     /\ meds' = m2
                     /\ expect' = Expect(m2, Len(c2) - 1, pre)
-        /\ UNCHANGED pre
+        /\ UNCHANGED <<pre, side, smeds>>
 
-Next == Mine
+\* grow the side branch by one block (its first block sits on the fork point)
+MineSide ==
+    /\ pre \in ForkPres
+    /\ Len(chain) = pre + 1 + ForkMain
+    /\ \A i \in (pre + 2)..Len(chain) :
+          \/ chain[i] - chain[i - 1] \in ForkMainSteps
+          \/ (0 \in ForkMainSteps /\ chain[i] = meds[i - 1] + 1)
+    /\ Len(side) <= ForkMain
+    /\ LET own  == OwnChain(chain, pre, side)
+           om   == IF side = << >> THEN SubSeq(meds, 1, pre + 1) ELSE smeds
+       IN  \E s \in Steps :
+             LET t == IF s = 0 THEN om[Len(om)] + 1 ELSE own[Len(own)] + s IN
+             /\ t > om[Len(om)]
+             /\ \E sd2 \in {Append(side, t)} :
+                \E m2 \in {Append(om, MTP(Append(own, t), Len(own)))} :
+                   /\ side' = sd2
+                   /\ smeds' = m2
+                   \* the medians up to the parent of the newest block decide about it
+                   /\ expect' = ForkExpect(om, pre, sd2)
+    /\ UNCHANGED <<pre, chain, meds>>
+
+Next == Mine \/ MineSide
 
 Spec == Init /\ [][Next]_vars
 
@@ -214,6 +281,7 @@ Stable ==
 
 \* rows: <<version, mempool, coinbase, ins, seconds, height, met>>
 Shape ==
+    side = << >> =>
     \A r \in expect.locks :
         /\ r[5] >= -1 /\ r[6] >= -1
         \* version 0/1 and coinbase transactions have no lock
@@ -233,4 +301,16 @@ Boundary ==
             /\ ~BlockOK(meds, t, pre, Q(2, TRUE, FALSE, <<In(0, LastHeightLock(t, ih) + 1, ih)>>))
             /\ BlockOK(meds, t, pre, Q(2, TRUE, FALSE, <<In(64, LastTimeLock(meds, t, ih), ih)>>))
             /\ ~BlockOK(meds, t, pre, Q(2, TRUE, FALSE, <<In(64, LastTimeLock(meds, t, ih) + 1, ih)>>))
+
+\* forks: the side branch's medians are those of its own chain, and the
+\* boundary of a complete fork lies where that chain puts it
+ForkLaws ==
+    side # << >> =>
+        /\ smeds = Medians(OwnChain(chain, pre, side))
+        /\ (expect.fork = "complete" =>
+              LET t == expect.parent
+                  m == SubSeq(smeds, 1, t + 1)
+              IN  \A ih \in {pre - 1, pre} \cup ((pre + 1)..t) :
+                     /\ BlockOK(m, t, pre, Q(2, TRUE, FALSE, <<In(64, LastTimeLock(m, t, ih), ih)>>))
+                     /\ ~BlockOK(m, t, pre, Q(2, TRUE, FALSE, <<In(64, LastTimeLock(m, t, ih) + 1, ih)>>)))
 =============================================================================
